@@ -257,7 +257,7 @@ def judge(pos, npart, box, coord, weights, nthread, dtype=np.float64):
     P0, W0 = P.copy(), None if W is None else W.copy()
     try:
         ps, starts, ws = partition_parallel(P, npart, dtype(box), weights=W, coord=coord, nthread=nthread)
-    except IndexError as ex:
+    except (IndexError, SystemError) as ex:       # bounds check inside a parallel kernel surfaces as SystemError
         return f'out-of-bounds access: {ex}'
     N = len(P0)
     if not np.array_equal(P, P0) or (W is not None and not np.array_equal(W, W0)):
